@@ -73,8 +73,8 @@ prop('C18',
      design_ref='DESIGN.md §5 C18')
 
 prop('C07',
-     modules=['LarkVerif.Lexer', 'LarkVerif.LexModel', 'LarkVerif.LexTiling', 'LarkVerif.Props.C07', 'LarkVerif.Extracted'],
-     theorems=['Props.C07.sort_key_is_documented', 'Props.C07.executable_lexer_tiles', 'Props.C07.scan_order_sorted', 'Props.C07.lex_tiles', 'Props.C07.chunking_irrelevant', 'Props.C07.contextual_refines_basic',
+     modules=['LarkVerif.Lexer', 'LarkVerif.LexModel', 'LarkVerif.LexTiling', 'LarkVerif.LexEmit', 'LarkVerif.LexFast', 'LarkVerif.Props.C07', 'LarkVerif.Extracted'],
+     theorems=['Props.C07.sort_key_is_documented', 'Props.C07.executable_lexer_tiles', 'Props.C07.basic_lexer_emits_the_tiling', 'Props.C07.scan_order_sorted', 'Props.C07.lex_tiles', 'Props.C07.chunking_irrelevant', 'Props.C07.contextual_refines_basic',
                'Props.C07.keyword_exception', 'Props.C07.keyword_candidates', 'Props.C07.string_terminals_keep_type', 'LexModel.termLe_trans', 'LexModel.termLe_total'],
      fingerprints=['lark/lexer.py:_create_unless', 'lark/lexer.py:Scanner._build_mres', 'lark/lexer.py:Scanner.match', 'lark/lexer.py:BasicLexer.__init__', 'lark/lexer.py:BasicLexer._build_scanner',
                    'lark/lexer.py:BasicLexer.next_token', 'lark/lexer.py:ContextualLexer.__init__', 'lark/lexer.py:ContextualLexer.lex'],
